@@ -395,6 +395,10 @@ func (rn *runner) makeProvider(p *cprovider) any {
 			rets := make([]reflect.Value, len(p.outs))
 			for i, tc := range p.outs {
 				rets[i] = mkval(tc, false, p.pid, s)
+				if tcToPool[tc] == pool[pError] && s%2 == 0 {
+					// a wrapper's own error result is nil on even steps
+					rets[i] = reflect.Zero(tcToPool[tc].t)
+				}
 				if p.passthru && last != nil {
 					for j, rt := range p.innerOuts {
 						if rt == tc {
@@ -409,8 +413,8 @@ func (rn *runner) makeProvider(p *cprovider) any {
 				// a Reflective builds its results with reflect.ValueOf: they carry their dynamic type,
 				// not the interface type that Out() declares
 				for i, v := range rets {
-					if v.Kind() == reflect.Interface && !v.IsNil() {
-						rets[i] = v.Elem()
+					if v.Kind() == reflect.Interface {
+						rets[i] = v.Elem() // a nil interface becomes the invalid Value, as reflect.ValueOf(nil) is
 					}
 				}
 			}
